@@ -227,3 +227,41 @@ pub fn cmd_stats(seed: u64, n: usize, opts: &[String]) {
         }
     }
 }
+
+/// `genfun-mutants <seed> <n>`: single ill-typed edits of generated programs against the real checker
+pub fn cmd_mutants(seed: u64, n: usize, opts: &[String]) {
+    let show: usize = opts.iter().find_map(|o| o.strip_prefix("show=").and_then(|v| v.parse().ok())).unwrap_or(2);
+    // class -> (mutants, parse errors, rejected by checker, accepted, panics), and diagnostics seen
+    let mut table: BTreeMap<String, [usize; 5]> = BTreeMap::new();
+    let mut diags: BTreeMap<String, BTreeMap<String, usize>> = BTreeMap::new();
+    let mut accepted: Vec<(usize, String, String)> = Vec::new();
+    for k in 0..n {
+        let p = gen_k(seed, k, opts);
+        let mut rng = Rng::new(seed.wrapping_mul(77).wrapping_add(k as u64));
+        for (class, text) in crate::gen_fun_mutate::mutate_ill_typed(&mut rng, &p) {
+            let row = table.entry(class.clone()).or_insert([0; 5]);
+            row[0] += 1;
+            let t2 = text.clone();
+            let r = std::panic::catch_unwind(move || fun::parser::parse_module(&t2).map(|m| m.check()));
+            match r {
+                Err(e) => { row[4] += 1; *diags.entry(class.clone()).or_default().entry(format!("PANIC {}", panic_msg(e))).or_insert(0) += 1; }
+                Ok(Err(e)) => { row[1] += 1; *diags.entry(class.clone()).or_default().entry(format!("parse: {e}").chars().take(50).collect()).or_insert(0) += 1; }
+                Ok(Ok(Err(e))) => {
+                    row[2] += 1;
+                    let d = format!("{e:?}");
+                    let name: String = d.split(|c: char| c == ' ' || c == '{').next().unwrap_or("").to_string();
+                    *diags.entry(class.clone()).or_default().entry(name).or_insert(0) += 1;
+                }
+                Ok(Ok(Ok(_))) => { row[3] += 1; accepted.push((k, class.clone(), text)); }
+            }
+        }
+    }
+    println!("genfun-mutants seed={seed} n={n}");
+    println!("{:32} {:>8} {:>8} {:>9} {:>9} {:>7}   diagnostics", "class", "mutants", "parseerr", "rejected", "ACCEPTED", "panics");
+    for (c, r) in &table {
+        let d: Vec<String> = diags.get(c).map(|m| m.iter().map(|(k, v)| format!("{k}:{v}")).collect()).unwrap_or_default();
+        println!("{:32} {:8} {:8} {:9} {:9} {:7}   {}", c, r[0], r[1], r[2], r[3], r[4], d.join(" "));
+    }
+    println!("--- first accepted mutants ({} total)", accepted.len());
+    for (k, class, text) in accepted.iter().take(show) { println!("### program {k}, class {class}\n{text}"); }
+}
